@@ -126,7 +126,24 @@ def _stdlib_import(st):
 
 
 def _fixed_module_name(prog, fi, g, n, e):
-    """the expression is a string constant, or an item of a module-level dictionary whose values are all string constants"""
+    """the expression is a string constant, an item of a module-level dictionary whose values are all string constants, or a text
+    built from __name__ and a parameter that a dominating test found in a module-level tuple of string constants"""
+    from vlib.flow import dominators as _dom83
+    consts_ok = set()
+    for d_ in _dom83(g)[n.id]:
+        b_ = g.nodes[d_]
+        if b_.kind == "branch" and b_.polarity and isinstance(b_.test, ast.Compare) and len(b_.test.ops) == 1 and isinstance(b_.test.ops[0], ast.In) and \
+                isinstance(b_.test.left, ast.Name) and isinstance(b_.test.comparators[0], (ast.Name, ast.Tuple, ast.List, ast.Set)):
+            cmp_ = b_.test.comparators[0]
+            val_ = cmp_ if not isinstance(cmp_, ast.Name) else (prog.modules[fi.module].assigns.get(cmp_.id) if fi.module in prog.modules else None)
+            if isinstance(val_, (ast.Tuple, ast.List, ast.Set)) and val_.elts and all(isinstance(v_, ast.Constant) and isinstance(v_.value, str) for v_ in val_.elts):
+                consts_ok.add(b_.test.left.id)
+            if isinstance(val_, ast.Dict) and val_.keys and all(isinstance(v_, ast.Constant) and isinstance(v_.value, str) for v_ in val_.keys):
+                consts_ok.add(b_.test.left.id)
+    if consts_ok and all((isinstance(x_, ast.Name) and (x_.id in consts_ok or x_.id == "__name__")) or not isinstance(x_, ast.Name)
+                         for x_ in ast.walk(e)) and not any(isinstance(x_, ast.Call) and not (isinstance(x_.func, ast.Attribute) and x_.func.attr == "format")
+                                                            for x_ in ast.walk(e)):
+        return True
     for a in prov.value_alts(prov.origin(g, n, e)):
         if a[0] == "const" and isinstance(a[1], str):
             continue
@@ -289,7 +306,7 @@ def check(ck):
                 sensitive.append((n, "%s(...)" % nm))
         for e in node_exprs(n):
             for sub in ast.walk(e):
-                if isinstance(sub, ast.Subscript) and isinstance(sub.ctx, ast.Load) and dump(sub.value) == "classes":
+                if isinstance(sub, ast.Subscript) and isinstance(sub.ctx, ast.Load) and dump(sub.value) in ("classes", "classes or {}", "(classes or {})"):
                     sensitive.append((n, "classes[...] lookup"))
                 if isinstance(sub, ast.Subscript) and isinstance(sub.ctx, ast.Store) and dump(sub.value) == "obj":
                     pass
